@@ -290,4 +290,67 @@ def faxDims (fixed : Bool) (columns rows : Nat) : Out (Nat × Nat) :=
     if columns * rows ≥ 2 ^ 63 then .panic else   -- capacity overflow
     if columns = 0 then .panic else .ok (columns % 65536, rows % 65536)
 
+
+/-- `fax_decode` with the data: a coded row takes at least one bit, `/Rows` above `8 · data.len()` is an
+    error. `ok (width, height)`: the decoder writes at most `height` rows of `width` bytes when `height > 0`. -/
+def faxDimsData (columns rows dataLen : Nat) : Out (Nat × Nat) :=
+  match faxDims true columns rows with
+  | .ok (c, r) => if r > 8 * dataLen then .err else .ok (c, r)
+  | o => o
+
+-- ---------------------------------------------------------------------------------------------------
+-- key lengths of the standard security handler (crypt.rs)
+--
+-- `Model/Crypt.lean` (owned by the C06 package) models `from_password` with total list operations
+-- (`take`): it says *what* is hashed. What follows is the other half: the slice and buffer arithmetic of
+-- the same lines, with the key length as an arbitrary number, where every `&x[..n]` can fail.
+
+/-- `&buf[..n]` on a buffer of `len` bytes -/
+def sliceTo (n len : Nat) : Out Unit := if n ≤ len then .ok () else .panic
+
+/-- `Rc4::new(key)`: `assert!(!key.is_empty() && key.len() <= 256)` -/
+def rc4Key (len : Nat) : Out Unit := if 0 < len ∧ len ≤ 256 then .ok () else .panic
+
+/-- `filter_key_bits`: the crypt filter gives the key length in bytes, `n.checked_mul(8)` in u32
+    (`fixed = false`: the unchecked `8 * n`) -/
+def cfKeyBits (fixed : Bool) (n : Nat) : Out Nat :=
+  if 8 * n < 4294967296 then .ok (8 * n) else (if fixed then .err else .panic)
+
+def seqU (a : Out Unit) (b : Out Unit) : Out Unit :=
+  match a with
+  | .ok _ => b
+  | o => o
+
+/-- `key_derivation_user_password_rc4`: step h) slices the 16 byte digest, then the key buffer of
+    `max key_size 16` bytes takes the digest. `clamp = false` is the code without the `min(key_size, 16)`. -/
+def userKeySlices (clamp : Bool) (revision keySize : Nat) : Out Unit :=
+  seqU (if revision ≥ 3 then sliceTo (if clamp then min keySize 16 else keySize) 16 else .ok ())
+       (sliceTo 16 (max keySize 16))
+
+/-- the slices and cipher keys of `from_password` for revisions 2–4, in order; `userOk`: the user
+    password check succeeds (otherwise the owner path is taken) -/
+def keySchedule (clamp : Bool) (revision keyBits : Nat) (userOk : Bool) : Out Unit :=
+  let keySize := keyBits / 8
+  if keySize = 0 then .err else
+  seqU (userKeySlices clamp revision keySize) <|
+  -- `&key[..min(key_size, 16)]` of a key of `max key_size 16` bytes, as an RC4 key
+  seqU (sliceTo (min keySize 16) (max keySize 16)) <|
+  seqU (rc4Key (min keySize 16)) <|
+  if userOk then .ok () else
+  -- owner path: `key_size > 16` is refused, `&hash[..key_size]`, the wrap key keys RC4, the user key again,
+  -- then `&key[..key_size]`
+  if keySize > 16 then .err else
+  seqU (sliceTo keySize 16) <|
+  seqU (rc4Key keySize) <|
+  seqU (userKeySlices clamp revision keySize) <|
+  seqU (sliceTo keySize (max keySize 16)) (rc4Key keySize)
+
+/-- `Decoder::decrypt`, methods V2 / AESV2: `n = min(key_size, 16)` bytes of the key (`keyLen` bytes
+    long) go into a buffer of 21 / 41 bytes followed by 5 / 9 more; the object key has `min(n + 5, 16)` bytes -/
+def objectKeySlices (aes : Bool) (keySize keyLen : Nat) : Out Unit :=
+  let n := min keySize 16
+  seqU (sliceTo n keyLen) <|
+  seqU (sliceTo (n + (if aes then 9 else 5)) (if aes then 41 else 21)) <|
+  if aes then .ok () else rc4Key (min (n + 5) 16)
+
 end Numeric
